@@ -48,6 +48,19 @@ def main(tier, seed, replay=None):
                                              noise=0.0, quant=None, probs=[0.683], qbits=([30, 40, 36][j % 3] if sc == "f64" else [14, 18][j % 2]),
                                              yscale=([None, 2.0 ** 20, 2.0 ** -20][j % 3])))
         cases[-1]["meta"]["near_exact"] = True
+    # EXACTLY zero residuals with non-zero coefficients (constant data, one basis function that is identically 1 at the initial rate 0:
+    # the optimizer stops at once with ResidualsZero, a success): reduced chi^2 and the standard error are exactly 0, not NaN
+    for j in range(8 if tier == "quick" else 32):
+        N0 = [8, 16, 4, 9, 32, 5, 64, 12][j % 8]
+        c = statsrun.gen_stats_case(rng, 1, 1, N0, scalar=("f32" if j % 4 == 3 else "f64"), weights=["none", "const", "unit"][j % 3],
+                                    noise=0.0, quant=None, probs=[0.683])
+        sc = c["scalar"]
+        c["model"]["init"] = [hx(0.0, sc)]
+        for o in c["build"]:
+            if o[0] == "obs":
+                o[2] = [[hx([2.0, -0.5, 1024.0][j % 3], sc)] * N0]
+        c["meta"]["exact_zero_residuals"] = True
+        cases.append(c)
     # a user threshold that truncates some singular values at the solution: the parameter count stays M + P
     for j in range(8 if tier == "quick" else 100):
         M, P = [(3, 1), (2, 1), (3, 2), (2, 2)][j % 4]
